@@ -13,6 +13,9 @@ use std::sync::atomic::{AtomicBool, AtomicIsize, AtomicUsize, Ordering::Relaxed}
 pub static LIVE_BYTES: AtomicIsize = AtomicIsize::new(0);
 pub static LIVE_BLOCKS: AtomicIsize = AtomicIsize::new(0);
 pub static ALLOC_CALLS: AtomicUsize = AtomicUsize::new(0);
+/// allocations made while no user destructor body of the harness payload is running
+pub static LIB_ALLOC_CALLS: AtomicUsize = AtomicUsize::new(0);
+pub static USER_DEPTH: AtomicUsize = AtomicUsize::new(0);
 pub static RCBOX_SIZE: AtomicUsize = AtomicUsize::new(0);
 pub static LAST_A64_ADDR: AtomicUsize = AtomicUsize::new(0);
 pub static LAST_A64_SIZE: AtomicUsize = AtomicUsize::new(0);
@@ -96,6 +99,9 @@ unsafe impl GlobalAlloc for Tracking {
             LIVE_BYTES.fetch_add(layout.size() as isize, Relaxed);
             LIVE_BLOCKS.fetch_add(1, Relaxed);
             ALLOC_CALLS.fetch_add(1, Relaxed);
+            if USER_DEPTH.load(Relaxed) == 0 {
+                LIB_ALLOC_CALLS.fetch_add(1, Relaxed);
+            }
             if layout.align() == 64 {
                 LAST_A64_ADDR.store(p as usize, Relaxed);
                 LAST_A64_SIZE.store(layout.size(), Relaxed);
@@ -130,6 +136,9 @@ unsafe impl GlobalAlloc for Tracking {
         if !q.is_null() {
             LIVE_BYTES.fetch_add(new_size as isize - layout.size() as isize, Relaxed);
             ALLOC_CALLS.fetch_add(1, Relaxed);
+            if USER_DEPTH.load(Relaxed) == 0 {
+                LIB_ALLOC_CALLS.fetch_add(1, Relaxed);
+            }
         }
         q
     }
